@@ -10,7 +10,7 @@ structure Inv where
 def parseInv (s : String) : Option Inv :=
   match s.splitOn "=" with
   | [k, sc] =>
-    if k ∉ ["nb", "batch", "task", "done"] then none else
+    if k ∉ ["nb", "batch", "task", "done", "q"] then none else
     some ⟨k, if sc = "-" then [] else (sc.splitOn "+").map (·.splitOn ":")⟩
   | _ => none
 
@@ -54,9 +54,12 @@ def conc (s : S) (sched : List Nat) (invs : List Inv) : String :=
         let st := ((a.1.find? (·.1 = sid)).map (·.2)).getD {}
         let upd' := fun (st' : StubSt) => (a.1.filter (·.1 ≠ sid)) ++ [(sid, st')]
         match p.1 with
-        | ["put", k, v] => (upd' { writes := setKV st.writes k v }, a.2)
+        -- the transaction the obtained context belongs to: the invocation's own, or somebody else's
+        | ["id"] => (a.1, a.2 ++ [if sid = 100 + i then "[SELF]" else "[OTHER]"])
+        -- a query's context is read-only: writes through it are swallowed
+        | ["put", k, v] => if kindOfStub sid = "q" then a else (upd' { writes := setKV st.writes k v }, a.2)
         | ["get", k] =>
-          let v := if kindOfStub sid = "nb" then (lookup s.ledger k).getD ""
+          let v := if kindOfStub sid = "nb" ∨ kindOfStub sid = "q" then (lookup s.ledger k).getD ""
                    else match lookup st.writes k with | some v => v | none => (lookup s.ledger k).getD ""
           (a.1, a.2 ++ [s!"[{v}]"])
         | _ => a) (acc.1, [])
